@@ -51,6 +51,20 @@ var c08Syntaxes = []struct{ name, code string }{
 	{"next-to-trace-call", "trace(\"probe\")\nunsafe_r := $C"},
 	{"under-with-modifier", "unsafe_r := $C with input as {}"},
 	{"after-some-declaration", "some unsafe_i\nunsafe_r := [$C][unsafe_i]"},
+	// the other spelling of a dotted reference: a["b"](...) names the same built-in as a.b(...)
+	{c08BracketForm, "unsafe_r := $C"},
+}
+
+const c08BracketForm = "bracket-form-of-the-reference"
+
+// c08Bracketed re-spells the dotted name at the head of a call: http.send(x) -> http["send"](x).
+func c08Bracketed(call string) string {
+	par := strings.Index(call, "(")
+	dot := strings.Index(call, ".")
+	if par < 0 || dot < 0 || dot > par {
+		return call
+	}
+	return call[:dot] + "[\"" + call[dot+1:par] + "\"]" + call[par:]
 }
 
 // positions: where the code is embedded in the profile language. $CODE is the (multi-line) rule body fragment.
@@ -164,7 +178,7 @@ func c08(tier string) {
 	}
 	ctx := lib.NewCtx("C08", tier)
 	ctx.Level = "fault_enumeration"
-	ctx.Rule = "(i) by name, complete matrix: 5 built-ins x 15 embedding positions (validation rego / regoModule / code+message form / constraint-level / inside nested / inside atLeast / under not, and, or, if, then, else / rego_extensions rule / helper function in rego_extensions called from an innocuous rego / second validation on another level) x 14 call syntaxes (statement, :=, =, array/set/object comprehension, argument of another call, negated, next to identifiers named like future keywords, next to print / trace calls, under a `with` modifier, after a `some` declaration) x debug flag {false,true}: CompileProfile, Validate and ValidateWithConfiguration (three report configurations) must fail and no evaluation event (OpaValidationStart or later) may be seen; every (position, syntax) cell is first shown to compile with a harmless call; " +
+	ctx.Rule = "(i) by name, complete matrix: 5 built-ins x 15 embedding positions (validation rego / regoModule / code+message form / constraint-level / inside nested / inside atLeast / under not, and, or, if, then, else / rego_extensions rule / helper function in rego_extensions called from an innocuous rego / second validation on another level) x 15 call syntaxes (statement, :=, =, array/set/object comprehension, argument of another call, negated, next to identifiers named like future keywords, next to print / trace calls, under a `with` modifier, after a `some` declaration, the bracket form a[\"b\"](...) of the dotted reference) x debug flag {false,true}: CompileProfile, Validate and ValidateWithConfiguration (three report configurations) must fail and no evaluation event (OpaValidationStart or later) may be seen; every (position, syntax) cell is first shown to compile with a harmless call; " +
 		"(ii) by behaviour: every built-in registered in the linked OPA (ast.Builtins) gets a type-correct call synthesised from its declaration; each profile that compiles is compiled+evaluated in a child process under strace -f -e trace=socket,connect,sendto,sendmsg and must issue no AF_INET/AF_INET6 system call (controls: a profile without Rego shows none, a resolver call shows some); " +
 		"non-trivial & distinct = matrix cell / built-in actually judged"
 	ctx.Assumptions = []string{"host inspection and compiler re-entry are not visible as system calls: opa.runtime, rego.parse_module and walk are decided by name only", "strace must work in the sandbox (checked by the positive control, otherwise part (ii) is inconclusive)"}
@@ -218,6 +232,10 @@ func c08(tier string) {
 			}
 		}
 		legacy := strings.HasPrefix(c.syn, "with-legacy-identifier")
+		harmless := harmless
+		if c.syn == c08BracketForm {
+			harmless = c08Bracketed(`strings.reverse("ab")`)
+		}
 		control := c08Position(c.pos, strings.ReplaceAll(synCode[c.syn], "$C", harmless), "")
 		if cc := lib.Compile(control, nil); cc.Failed() {
 			if !legacy {
@@ -248,6 +266,9 @@ func c08(tier string) {
 					continue
 				}
 			} else {
+				if c.syn == c08BracketForm {
+					call = c08Bracketed(call)
+				}
 				code = strings.ReplaceAll(synCode[c.syn], "$C", call)
 			}
 			ptext := c08Position(c.pos, code, "")
